@@ -4,16 +4,66 @@ package discovery
 
 import (
 	"fmt"
+	"sync"
 	"testing"
+	"time"
 
+	"github.com/schollz/peerdiscovery"
 	log "github.com/sirupsen/logrus"
 
 	"github.com/dtn7/dtn7-go/pkg/bpv7"
 	"github.com/dtn7/dtn7-go/pkg/cla"
 )
 
+// verifC04Notify hands one received packet to the Manager's own handler (Manager.notify →
+// UnmarshalAnnouncements → one handleDiscovery goroutine per announcement → CLA construction →
+// RegisterFunc); nothing touches the network: the convergence layers are only constructed.
+func verifC04Notify(in []byte) (string, string) {
+	var mu sync.Mutex
+	registered := 0
+	m := &Manager{
+		NodeId: bpv7.MustNewEndpointID("dtn://me/"),
+		RegisterFunc: func(c cla.Convergable) {
+			_ = fmt.Sprint(c)
+			mu.Lock()
+			registered++
+			mu.Unlock()
+		},
+	}
+	// what the handler is expected to register
+	expected := 0
+	as, err := UnmarshalAnnouncements(in)
+	if err == nil {
+		for _, a := range as {
+			if !m.NodeId.SameNode(a.Endpoint) && (a.Type == cla.MTCP || a.Type == cla.TCPCLv4) {
+				expected++
+			}
+		}
+	}
+	m.notify(peerdiscovery.Discovered{Address: "192.0.2.1", Payload: in})
+	m.notify6(peerdiscovery.Discovered{Address: "2001:db8::1", Payload: in})
+	deadline := time.Now().Add(verifC04Budget())
+	for {
+		mu.Lock()
+		n := registered
+		mu.Unlock()
+		if n >= 2*expected {
+			break
+		}
+		if time.Now().After(deadline) {
+			return "timeout", "-"
+		}
+		time.Sleep(100 * time.Microsecond)
+	}
+	if err != nil {
+		return "error", "-"
+	}
+	return "value", fmt.Sprintf("n=%d,registered=%d", len(as), registered)
+}
+
 func verifC04Decoders() map[string]verifC04Dec {
 	return map[string]verifC04Dec{
+		"announce-handler": verifC04Notify,
 		"announce": func(in []byte) (string, string) {
 			as, err := UnmarshalAnnouncements(in)
 			if err != nil {
@@ -67,6 +117,12 @@ func verifC04Gen(r *verifC04Rng, thorough bool) (cases []verifC04Case) {
 		cases = append(cases, verifC04Case{"announce", s}, verifC04Case{"announce", s[:len(s)/2]})
 		for _, v := range verifC04Boundary {
 			cases = append(cases, verifC04Case{"announce", append(verifC04Head(4, v, 0), s[3:]...)})
+		}
+	}
+	// every packet also takes the way through the manager's handler
+	for _, c := range cases {
+		if len(c.in) < 20000 {
+			cases = append(cases, verifC04Case{"announce-handler", c.in})
 		}
 	}
 	// count only, nothing behind it
